@@ -59,6 +59,7 @@ pub fn run(path: &str) -> ! {
       "c09" if case.get("law").is_some() => crate::engines::c09::replay_case(&case),
       "c10" if case.get("bound_literals").is_some() => crate::engines::c10::replay_case(&case),
       "c13" if case.get("kind").and_then(|k| k.as_str()) == Some("history") => crate::engines::c13::replay_history(&case),
+      "c13" if case.get("kind").and_then(|k| k.as_str()) == Some("function-value") => crate::engines::c13::replay_function_value(&case),
       // type relations are not re-evaluated case by case: the replay of a C16 case is the whole (one second) check
       "c16" => {
         std::env::set_var("VERIF_TIER", "quick");
